@@ -22,6 +22,51 @@ type layerStack struct {
 	parts    []hackpadfs.FS // every participating FS, for "unchanged" checks
 	mounts   []string       // mount points, in the stack's own namespace
 	cleanup  func()
+	// prefix (os.FS used without any Sub root): every name handed to fs is this directory joined with the
+	// history's name; snap is the view the harness observes the tree through
+	prefix string
+	snap   hackpadfs.FS
+}
+
+// lsOsRoot is os.FS below zero Sub roots. Only C05 draws it (its run maps every name below the scratch directory).
+const lsOsRoot = 1000
+
+// sutOp maps a history step into the namespace the stack's FS is called in.
+func (ls *layerStack) sutOp(o Op) Op {
+	if ls.prefix == "" {
+		return o
+	}
+	m := func(p string) string {
+		if p == "." {
+			return ls.prefix
+		}
+		return ls.prefix + "/" + p
+	}
+	o.P = m(o.P)
+	if o.Kind == "Rename" {
+		o.Q = m(o.Q)
+	}
+	return o
+}
+
+// sutErr maps the os twin's error into that namespace (its path is used as the expectation for MkdirAll/RemoveAll).
+func (ls *layerStack) sutErr(err error) error {
+	var pe *hackpadfs.PathError
+	if ls.prefix == "" || !errors.As(err, &pe) || pe.Path == "" || strings.HasPrefix(pe.Path, "/") {
+		return err
+	}
+	p := ls.prefix + "/" + pe.Path
+	if pe.Path == "." {
+		p = ls.prefix
+	}
+	return &hackpadfs.PathError{Op: pe.Op, Path: p, Err: pe.Err}
+}
+
+func (ls *layerStack) snapFS() hackpadfs.FS {
+	if ls.snap != nil {
+		return ls.snap
+	}
+	return ls.fs
 }
 
 const (
@@ -109,6 +154,13 @@ func buildLayerStack(t *T, k int, ref hackpadfs.FS) *layerStack {
 		s2, err := hackpadfs.Sub(s1, "y")
 		must(t, err)
 		ls.name, ls.family, ls.fs, ls.parts = "Sub(Sub(mem,x),y)", "sub", s2, []hackpadfs.FS{base}
+	case lsOsRoot:
+		dir, cleanup := newScratch(t)
+		ls.cleanup = cleanup
+		view, err := hos.NewFS().Sub(strings.TrimPrefix(dir, "/"))
+		must(t, err)
+		ls.name, ls.family, ls.fs, ls.parts = "os.FS under no Sub root", "os", hos.NewFS(), []hackpadfs.FS{view}
+		ls.prefix, ls.snap = strings.TrimPrefix(dir, "/"), view
 	case lsOsSub0, lsOsSub2:
 		dir, cleanup := newScratch(t)
 		ls.cleanup = cleanup
@@ -317,7 +369,10 @@ func runC05(t *T) {
 	}
 	ref, _, cleanup := osTwin(t)
 	defer cleanup()
-	k := c.Draw(lsCount)
+	k := c.Draw(lsCount + 1)
+	if k == lsCount {
+		k = lsOsRoot
+	}
 	ls := buildLayerStack(t, k, ref)
 	defer ls.cleanup()
 	g := newFsGen(t, ls.alpha, 3)
@@ -349,10 +404,11 @@ func runC05(t *T) {
 			continue
 		}
 		sig := opSig(Op{Kind: o.Kind, P: o.P, Q: o.Q, Flag: o.Flag & 3}, refSnap)
-		got := applyOpX(ls.fs, o)
+		so := ls.sutOp(o)
+		got := applyOpX(ls.fs, so)
 		if got.Err != nil && errors.Is(got.Err, hackpadfs.ErrNotImplemented) {
 			t.Logf("%d %s -> sut=ErrNotImplemented (not applied to the twin)", i, o)
-			judgeError(t, ls, o, got.Err, nil, sig)
+			judgeError(t, ls, so, got.Err, nil, sig)
 			judged++
 			continue
 		}
@@ -363,12 +419,12 @@ func runC05(t *T) {
 			break
 		}
 		if got.Err != nil {
-			judgeError(t, ls, o, got.Err, want.Err, sig)
+			judgeError(t, ls, so, got.Err, ls.sutErr(want.Err), sig)
 			judged++
 		}
 		if o.Mutating() {
 			refSnap = takeSnapshot(ref, snapOpts{NoPerm: true})
-			sutSnap := takeSnapshot(ls.fs, snapOpts{NoPerm: true})
+			sutSnap := takeSnapshot(ls.snapFS(), snapOpts{NoPerm: true})
 			if refSnap.Text != sutSnap.Text {
 				t.Stat("diverged-tree(not judged here)")
 				break
